@@ -229,6 +229,25 @@ def r3(ctx):
                 ctx.check("C11.R3", bool(nt) and head2 not in r2_, key(f, "notify-in-polling-loop|%s" % norm(w2.test)[:40]), site(f, w2.test),
                           "the polling loop `while %s` of %s sleeps without self.notify() on every round: a worker that is draining its connections (healthy, possibly still serving) "
                           "stops beating and is killed for inactivity once the drain lasts longer than `timeout`" % (norm(w2.test)[:60], f.short), "notify on every round")
+            # the graceful wait after the loop (TERM, HUP retirement, max_requests) can last graceful_timeout, which may exceed
+            # timeout: it beats too -- a single blocking wait bounded by graceful_timeout leaves the worker silent, the arbiter
+            # takes it for hung and kills it, with the requests it was finishing
+            cfgm = __import__("gverif.rules.common", fromlist=["cfg_attr"]).cfg_attr
+            post = g.reachable([(t, "false") for t in g.tests() if t.stmt is loops[0]], follow_exc=False)
+            for n_ in post:
+                if n_.ast is None or n_.kind not in ("stmt", "with", "test"):
+                    continue
+                if not any(cfgm(x) == "graceful_timeout" for root in n_.cover for x in ast.walk(root)):
+                    continue
+                inloop = [a for a in f.module.ancestors(n_.ast) if isinstance(a, ast.While)]
+                beats = any(any(isinstance(c, ast.Call) and isinstance(c.func, ast.Attribute) and c.func.attr == "notify" for c in ast.walk(a)) for a in inloop)
+                blocking = any(isinstance(c, ast.Call) and ((repo.call_target(f.module, f, c) or "").rsplit(".", 1)[-1] in ("wait", "Timeout", "join", "sleep") or
+                                                            (isinstance(c.func, ast.Attribute) and c.func.attr in ("wait", "join"))) for root in n_.cover for c in ast.walk(root))
+                if blocking:
+                    ctx.check("C11.R3", beats, key(f, "graceful-wait-beats|" + norm(n_.ast if n_.kind != "with" else n_.ast.items[0].context_expr)[:40]), site(f, n_),
+                              "after its serving loop %s waits for the requests in flight in one blocking call bounded by graceful_timeout (`%s`) without self.notify(): when graceful_timeout > timeout "
+                              "the arbiter sees no heartbeat, logs WORKER TIMEOUT and kills the worker -- every request that needed longer than `timeout` from the stop signal is cut" % (f.short, n_.text[:70]),
+                              "the graceful wait notifies at least every second")
             w = loops[0]
             # blocking calls in the loop
             for c in [x for x in ast.walk(w) if isinstance(x, ast.Call)]:
